@@ -5,6 +5,7 @@ the Coq-verified bisimulation checker (equal traces for all input sequences); th
 desugared sheet's reference meaning (RowSem with blocks: an edge from a block leaves every
 loose exit, never a hard exit) is also compared with the sugared sheet's compiled flow."""
 import json
+import re
 
 import c03_blocks
 import flowutil
@@ -38,6 +39,104 @@ def classify(tree):
     return keys
 
 
+# ------------------------------------------------------------------ the twins' desugaring IS the model's (Comp/Desugar.v)
+# A twin tree is projected onto the rows of the block-mechanics model: row type, include_if, the row_id cell, and ONE
+# text cell that is the concatenation of every other cell of the row (path-tagged, no escaping, so that substituting
+# {{variables}} commutes with it); loop variables and the loop's elements as they are.  The Gallina `desugar` of the
+# projected sugared sheet must be the projection of sheetgen.desugar's output, row for row.
+_REF = re.compile(r"\{\{(\w+)\}\}")
+
+
+def _flat(v, path=""):
+    if isinstance(v, dict):
+        return "".join(_flat(v[k], path + "/" + k) for k in sorted(v))
+    if isinstance(v, list):
+        return "".join(_flat(x, path + "/" + str(i)) for i, x in enumerate(v))
+    return "\x02" + path + "\x03" + (v if isinstance(v, str) else repr(v))
+
+
+def _segs(text, names):
+    out, pos = [], 0
+    for mt in _REF.finditer(text):
+        if mt.group(1) not in names:
+            continue
+        if mt.start() > pos:
+            out.append(("lit", text[pos:mt.start()]))
+        out.append(("ref", mt.group(1)))
+        pos = mt.end()
+    if pos < len(text):
+        out.append(("lit", text[pos:]))
+    return out
+
+
+def _cells(row, drop):
+    return _flat({k: v for k, v in row.items() if k not in drop})
+
+
+def project_sugared(tree):
+    names = set(CTX)
+
+    def collect(items):
+        for it in items:
+            if it[0] == "for":
+                names.update(x for x in (it[2], it[3]) if x)
+                collect(it[6])
+            elif it[0] == "block":
+                collect(it[2])
+    collect(tree)
+    rows = []
+
+    def inc_of(row):
+        """the include_if cell in the model's language: a literal, or the comparison {{ v == "word" }} / {{ v != "word" }}"""
+        mt = sheetgen.INCLUDE_CMP.match(str(row.get("include_if", "")).strip())
+        if mt:
+            return ("cmp", mt.group(1), mt.group(2) == "==", mt.group(3))
+        return "true" if sheetgen.include(row) else "false"
+
+    def walk(items):
+        for it in items:
+            if it[0] == "row":
+                r = it[1]
+                rows.append(dict(kind="plain", inc=inc_of(r), id=_segs(r.get("row_id", ""), names),
+                                 text=_segs(_cells(r, ("row_id", "include_if")), names)))
+            else:
+                head = it[1]
+                h = dict(kind=it[0], inc=inc_of(head), id=_segs(head.get("row_id", ""), names),
+                         text=_segs(_cells(head, ("row_id", "include_if", "type")), names))
+                if it[0] == "for":
+                    h.update(vars=[it[2]] + ([it[3]] if it[3] else []), iter=("lit", [str(e) for e in it[4]]))
+                rows.append(h)
+                walk(it[6] if it[0] == "for" else it[2])
+                rows.append(dict(kind="end" + it[0], inc="true"))
+    walk(tree)
+    return rows
+
+
+def project_desugared(des):
+    out = []
+    for r in des:
+        if r["type"] == "begin_block":
+            out.append(("block", r.get("row_id", ""), _cells(r, ("row_id", "include_if", "type"))))
+        elif r["type"] == "end_block":
+            out.append(("endblock", "", ""))
+        else:
+            out.append(("plain", r.get("row_id", ""), _cells(r, ("row_id", "include_if"))))
+    return out
+
+
+def compare_desugarings(ctx, tree, des, rep):
+    """model desugar (wire 103) of the projected twin vs the projection of the harness's reference desugaring"""
+    rows = project_sugared(tree)
+    md = c03_blocks.model_desugar(ctx.model, rows, CTX)
+    want = ("ok", project_desugared(des))
+    if any(isinstance(r["inc"], tuple) for r in rows):
+        ctx.count("desugar_model_vs_twin_reference_with_comparison_cell")
+    ctx.count("desugar_model_vs_twin_reference")
+    if md != want:
+        ctx.disagree("twins: desugar (Comp/Desugar.v) of the sugared sheet differs from the reference desugaring the twin is built from",
+                     rep, repr(md)[:1500], repr(want)[:1500])
+
+
 def judge(ctx, tree, nontrivial, samples):
     v, m, rng = ctx.v, ctx.model, ctx.rng
     sug = sheetgen.flatten_sugared(tree)
@@ -57,6 +156,8 @@ def judge(ctx, tree, nontrivial, samples):
         key = "empty-loop" if "empty-loop" in classes else (sorted(classes)[0] if classes else kind)
         v.failing_input(key, summary, rep)
 
+    if m:
+        compare_desugarings(ctx, tree, des, rep)
     if r1[0] != "ok" and r2[0] != "ok":
         ctx.count("both_rejected")
         return
@@ -132,7 +233,8 @@ def run(ctx):
         "each compiled together with its reference desugaring and judged by the Coq-verified checker. "
         "non-trivial = distinct sugared row profile containing at least one loop")
     ctx.v.assumptions += [
-        "the reference desugaring (harness/sheetgen.py: desugar) is written from the property text and DESIGN Appendix B",
+        "the reference desugaring (harness/sheetgen.py: desugar) is written from the property text and DESIGN Appendix B; it is compared, twin by twin, "
+        "with the Gallina desugar of Comp/Desugar.v (about which C03_desugar_equiv is proved) on the projection row type / include_if / row_id / all other cells",
         "loop bodies use the variables only in the forms {{x}} / {{i}} (textual substitution = Jinja rendering of str values)",
     ]
 
